@@ -20,6 +20,11 @@ def native_eq(a, b):
     return a == b
 
 
+# units of the memory path (accessors, translation, hub): the step-level claims use these functions by contract, so the
+# obligations that carry those claims below the contract boundary count for them as well
+ALSO_MEM = {'C18': ['safe.host', 'safe.escape'], 'C19': ['frame'], 'C20': ['frame.own']}
+
+
 def own_frame(eng, what):
     """ownership (C20): the function under contract keeps no state of its own - no memo table, function attribute, module-level or
     class-level mutable object is read or written (callers are verified against a contract that is a function of the arguments
